@@ -23,6 +23,9 @@ shrunk failing input):
   6 TextIndex.sort: empty result no longer returned unchanged
   7 CosineIndex.query_weight sums idf instead of idf^2
   8 AndNode.executeQuery no longer subtracts the NOT results
+Repeated one-word queries with DICT_CUTOFF 2 / 3 / default (see C08): seeded change C08_F (setops._trivial scales in
+place) and C08's mutations 10 (single-operand intersection, reached through a word+stop-word phrase) and 11 (single-match
+glob) give VIOLATION here on quick seed 0; 10 and 11 were run against the generator as it was before and were missed.
 """
 import random
 
@@ -529,7 +532,11 @@ RULE = ("corpora as in C08 (histories of index/reindex/unindex/reset through Tex
         "apply (values), 30% arbitrary trees incl. globs (values only), 20% apply followed by sort / "
         "ResultSet.sort(text index) with limits none/0/1/2/3/50 and reverse; 0-2 sort calls on hand-made "
         "weighted results (IF buckets, IF BTrees, dicts; 0-8 ids, scores from 5 values -> ties; limits incl. "
-        "0 and negative; reverse) or on unweighted results (IF sets, lists; TypeError unless empty). "
+        "0 and negative; reverse) or on unweighted results (IF sets, lists; TypeError unless empty); DICT_CUTOFF "
+        "2 / 3 / default as in C08 and, in 60% of the corpora, the SAME one-word query (atom, single-match glob, "
+        "word+stop-word phrase) on the most frequent word through apply / applyb / applysort before and after "
+        "other reads of the unchanged corpus (measured quick seed 0, of 912 corpora: 587 repeat on a dict posting, "
+        "139 on a stored IFBTree posting - 66 cosine; by form atom 111, glob 54, phrase 28 on stored trees). "
         "non-trivial = a scored apply with >= 2 documents and an applyb inside the hypotheses")
 LEVEL_TEXT = ("Lean 4 theorems over the reals: TextIndex.apply = raw score / query_weight (raw if the weight is "
               "0) for every tree; for every glob-free tree, every history and every lexicon each raw score is a "
